@@ -628,7 +628,11 @@ impl EventGen for Tag {
                 {
                     (el.all_events(context).into_raw_output(), None)
                 } else {
-                    context.apply_defaults(&mut el);
+                    // (defaults are for elements which are drawn; given to a <var> they
+                    // would be taken for variable assignments)
+                    if !matches!(el.name.as_str(), "var" | "config") {
+                        context.apply_defaults(&mut el);
+                    }
                     el.generate_events(context)?
                 };
                 (events, bbox) = (ev, bb);
